@@ -17,7 +17,12 @@ THEOREMS = [
     "Spowtd.no_interval_crosses_gap",
     "Spowtd.rain_depth_steps",
 ]
-TRUSTED_BASE = TRUSTED
+TRUSTED_BASE = TRUSTED + [
+    "translator tools/gen_schema.py: spowtd/schema.sql as parsed by SQLite itself (PRAGMA table_info / index_list / "
+    "foreign_key_list; CHECK clauses and view bodies cut from the stored CREATE text) -> lean/SchemaTie/Generated.lean; "
+    "the declarations the proofs assume are re-checked by `rfl` on every run (SchemaTie/Classify.lean)",
+]
+SCHEMA_TIE = ('Classify',)
 ASSUMPTIONS = ASSUME + ["SQLite's SUM is compared with the exact rational sum within 1e-9 relative"]
 RULE = ("as C01, plus every boolean vector up to length 10 (quick) / 14 (thorough) through "
         "classify.get_true_interval_masks against the model's trueRuns; boundary stream with intensities and "
